@@ -16,9 +16,9 @@ am = assert_overlay()
 
 chk = Check('C02', 'exploration',
             'full product cells x 8 pbc settings x p0 menu (interior, faces, edge, corner, outside) x p1 relative grid '
-            '{0,1/4,1/2,3/4,1-2^-20}^3 (every pair) x broadcast shapes (1:1, 1:N, N:1, N:N, list/tuple input), plus '
+            '{0,1/4,1/2,1/2+2^-34,3/4,1-2^-20}^3 (every pair) x broadcast shapes (1:1, 1:N, N:1, N:N, list/tuple input), plus '
             'System.dvect/dmag by index/slice/position and displacement() in its three reference modes; a case is one '
-            '(cell,pbc,p0) row = 125+ point pairs; non-trivial = at least one pair needs a non-zero image shift')
+            '(cell,pbc,p0) row = 216+ point pairs; non-trivial = at least one pair needs a non-zero image shift')
 chk.assumptions = ['length comparisons to 1e-12 relative', 'ties between equal-length candidates accepted']
 
 
@@ -41,7 +41,7 @@ def _cells():
 CELLS = _cells()
 ORIGINS = [np.zeros(3), np.array([1.3, -2.7, 0.45])]
 PBCS = list(itertools.product([False, True], repeat=3))
-G5 = [0.0, 0.25, 0.5, 0.75, 1 - 2.0 ** -20]
+G5 = [0.0, 0.25, 0.5, 0.5 + 2.0 ** -34, 0.75, 1 - 2.0 ** -20]   # 0.5+2^-34: a near tie between two images (lengths differ by ~1e-10 L)
 P1REL = np.array(list(itertools.product(G5, repeat=3)))
 if THOROUGH:
     G7 = [0.0, 1 / 7, 2 / 7, 0.4999, 0.5001, 6 / 7, 1.0]
@@ -167,7 +167,7 @@ def pairs(case):
 @chk.clause('system')
 def system(case):
     v, o, box, pbc = setup(case)
-    pos = np.vstack([P0REL[:NINSIDE0], P1REL[[7, 33, 61, 88, 124]]]) @ v + o
+    pos = np.vstack([P0REL[:NINSIDE0], P1REL[[7, 33, 61, 88, 124, 215]]]) @ v + o
     n = len(pos)
     sys_ = am.System(atoms=am.Atoms(pos=pos), box=box, pbc=pbc)
     fails = []
